@@ -101,8 +101,11 @@ func closePipe(n *Named, name string) {
 
 	n.mutex.Lock()
 
-	n.pipes[name].Pipe.Close()
-	delete(n.pipes, name)
+	// the pipe might have been closed again or deleted during the grace period
+	if n.pipes[name].Pipe != nil {
+		n.pipes[name].Pipe.Close()
+		delete(n.pipes, name)
+	}
 
 	n.mutex.Unlock()
 }
